@@ -15,13 +15,13 @@ theorem mem_all (k : SyntaxKind) : k ∈ SyntaxKind.all := by
 def tablesOKb : Bool :=
   SyntaxKind.all.all fun k =>
     match compositePieces k with
-    | some ps => (ps.length == 2 || ps.length == 3) && eatRawTokens k == ps.length && ps.all (· != .EOF)
+    | some ps => (ps.length == 2 || ps.length == 3) && eatRawTokens k == ps.length && ps.all (fun p => p != .EOF && p != .FLOAT_NUMBER)
     | none => eatRawTokens k == 1
 
 theorem tablesOKb_true : tablesOKb = true := by decide +kernel
 
 /-- `nth_at`'s composite table and `eat`'s `n_raw_tokens` table agree: a composite kind is
-glued from exactly as many raw tokens as `at` inspected, none of them `EOF`; every other kind
+glued from exactly as many raw tokens as `at` inspected, none of them `EOF` or `FLOAT_NUMBER`; every other kind
 consumes one raw token. -/
 theorem tablesOK : TablesOK := by
   have h := tablesOKb_true
